@@ -276,7 +276,8 @@ impl LogStore for FileLogStore {
             inner.file.flush()?;
         }
 
-        self.last_index.store(max_index, Ordering::SeqCst);
+        // A batch may re-write lower indexes: the last index only ever grows here.
+        self.last_index.fetch_max(max_index, Ordering::SeqCst);
         Ok(())
     }
 
@@ -326,6 +327,8 @@ impl LogStore for FileLogStore {
         inner.file.sync_all()?;
 
         inner.entries.retain(|&index, _| index > cutoff_index.index);
+        let new_last = inner.entries.keys().next_back().copied().unwrap_or(0);
+        self.last_index.store(new_last, Ordering::SeqCst);
 
         Ok(())
     }
